@@ -180,6 +180,12 @@ func newEventFromUntrustedJSONV2(eventJSON []byte, roomVersion IRoomVersion) (PD
 		}
 	}
 
+	// EventID() and Redact() cannot report an error: they panic on events that cannot be
+	// redacted (content that is not an object, or that holds a number too large to decode).
+	if _, err = roomVersion.RedactEventJSON(eventJSON); err != nil {
+		return nil, fmt.Errorf("gomatrixserverlib: event cannot be redacted: %w", err)
+	}
+
 	err = CheckFields(res)
 
 	return res, err
@@ -207,6 +213,12 @@ var lenientByteLimitRoomVersions = map[RoomVersion]struct{}{
 func CheckFields(input PDU) error { // nolint: gocyclo
 	if input.AuthEventIDs() == nil || input.PrevEventIDs() == nil {
 		return errors.New("gomatrixserverlib: auth events and prev events must not be nil")
+	}
+	// RoomID() cannot report an error: it panics on events that fail this check.
+	if roomID := gjson.GetBytes(input.JSON(), "room_id"); roomID.Exists() {
+		if _, err := spec.NewRoomID(roomID.String()); err != nil {
+			return fmt.Errorf("gomatrixserverlib: invalid room ID %q: %w", roomID.String(), err)
+		}
 	}
 	if l := len(input.JSON()); l > maxEventLength {
 		return EventValidationError{
